@@ -51,6 +51,7 @@ type c19 struct {
 	cur    int
 
 	maxSteps, steps   int
+	bigSet            bool
 	mutated, selected bool
 }
 
@@ -61,6 +62,11 @@ func (s *c19) Start(r *kit.Rng, cfg map[string]int64) {
 		return
 	}
 	s.maxSteps = r.Range(4, 40*kit.Depth)
+	if r.Chance(1, 10) {
+		// a set that grows well beyond a dozen coins
+		s.bigSet = true
+		s.maxSteps = r.Range(40, 70)
+	}
 	cfg["max_steps"] = int64(s.maxSteps)
 }
 
@@ -148,9 +154,20 @@ func (s *c19) genNewSet(r *kit.Rng, which int) kit.Op {
 }
 
 func (s *c19) genSetOp(r *kit.Rng) (kit.Op, bool) {
-	switch r.Intn(16) {
+	k := r.Intn(16)
+	limit := 16
+	if s.bigSet {
+		limit = 24
+		if k >= 5 && k <= 8 && r.Chance(3, 4) {
+			k = r.Intn(5) // mostly grow
+		}
+		if len(s.deque) > 15 {
+			s.st.Probe("set-with-more-than-15-coins")
+		}
+	}
+	switch k {
 	case 0, 1:
-		if len(s.pool) < 16 {
+		if len(s.pool) < limit {
 			return s.genCoin(r), true
 		}
 		fallthrough
